@@ -1134,7 +1134,8 @@ class NLDFSettings(BaseSettings):
         if self.rho_mult == "one":
             rho_mult = 1
         elif self.rho_mult == "expnt":
-            rho_mult = _get_ueg_expnt(self.theta_params[0], self.theta_params[2], rho)
+            tval = self.theta_params[2 if self.sl_level == "MGGA" else 1]
+            rho_mult = _get_ueg_expnt(self.theta_params[0], tval, rho)
         else:
             raise NotImplementedError
         return rho_mult
